@@ -316,13 +316,54 @@ def _target_names(t):
 class Flow:
     """CFG + reaching definitions for one function."""
 
-    def __init__(self, finfo_or_node):
+    def __init__(self, finfo_or_node, track_self=False):
         self.fn = finfo_or_node.node if hasattr(finfo_or_node, "node") else finfo_or_node
         self.info = finfo_or_node if hasattr(finfo_or_node, "node") else None
         self.cfg = CFG(self.fn)
+        self.track_self = track_self
         self._defs = {}   # node -> {name: how}
         self._collect_defs()
+        if track_self:
+            self._collect_self_defs()
         self._rd_in = None
+
+    def _collect_self_defs(self):
+        """treat plain stores to self.<attr> as definitions of the pseudo-variable 'self.<attr>';
+        a method call on self may change any of them (conservative kill)."""
+        tracked = set()
+        for n in self.cfg.nodes:
+            if n.kind == "stmt" and isinstance(n.stmt, (ast.Assign, ast.AugAssign, ast.AnnAssign)):
+                tg = n.stmt.targets if isinstance(n.stmt, ast.Assign) else [n.stmt.target]
+                for t in tg:
+                    d = dotted(t)
+                    if d and d.startswith("self.") and d.count(".") == 1:
+                        tracked.add(d)
+        if not tracked:
+            return
+        self._defs.setdefault(self.cfg.entry, {}).update({k: ("param",) for k in tracked})
+        for n in self.cfg.nodes:
+            d = self._defs.setdefault(n, {})
+            kills = False
+            for e in self.cfg.node_exprs(n):
+                for c in [e] + list(walk_local(e)):
+                    if isinstance(c, ast.Call) and isinstance(c.func, ast.Attribute) and isinstance(c.func.value, ast.Name) \
+                            and c.func.value.id == "self":
+                        kills = True
+            if kills:
+                for k in tracked:
+                    d[k] = ("other",)
+            if n.kind == "stmt":
+                s = n.stmt
+                if isinstance(s, ast.Assign):
+                    for t in s.targets:
+                        if dotted(t) in tracked:
+                            d[dotted(t)] = ("assign", s.value)
+                elif isinstance(s, ast.AnnAssign) and s.value is not None and dotted(s.target) in tracked:
+                    d[dotted(s.target)] = ("assign", s.value)
+                elif isinstance(s, ast.AugAssign) and dotted(s.target) in tracked:
+                    d[dotted(s.target)] = ("aug", s.op, s.value)
+            if not d:
+                del self._defs[n]
 
     # how: ('assign', value_expr) | ('unpack', value_expr, path) | ('aug', op, value_expr)
     #    | ('iter', iter_expr, path) | ('param',) | ('other',)
@@ -437,6 +478,12 @@ class Flow:
                     return n
                 return fl._expand_name(n, node, depth, _stack)
 
+            def visit_Attribute(self, n):
+                if fl.track_self and isinstance(n.ctx, ast.Load) and isinstance(n.value, ast.Name) and n.value.id == "self" \
+                        and fl.defs_at(node, f"self.{n.attr}"):
+                    return fl._expand_name(n, node, depth, _stack)
+                return self.generic_visit(n)
+
             def visit_Lambda(self, n):
                 return n
 
@@ -466,19 +513,20 @@ class Flow:
         return ast.Call(func=ast.Name(id=fname, ctx=ast.Load()), args=list(args), keywords=[])
 
     def _expand_name(self, n, node, depth, stack):
-        defs = self.defs_at(node, n.id)
+        nid = n.id if isinstance(n, ast.Name) else dotted(n)
+        defs = self.defs_at(node, nid)
         if not defs or depth <= 0:
             return n
         alts = []
         for d in sorted(defs, key=lambda x: x.id):
-            key = (n.id, d.id)
+            key = (nid, d.id)
             if key in stack:
-                alts.append(self._call("__loop__", ast.Constant(value=n.id)))
+                alts.append(self._call("__loop__", ast.Constant(value=nid)))
                 continue
-            how = self.def_how(d, n.id)
+            how = self.def_how(d, nid)
             st = stack + (key,)
             if how[0] == "param" or how[0] == "other":
-                alts.append(ast.Name(id=n.id, ctx=ast.Load()))
+                alts.append(copy.deepcopy(n))
             elif how[0] == "assign":
                 alts.append(self.expand(how[1], d, depth - 1, st))
             elif how[0] == "unpack":
@@ -487,7 +535,7 @@ class Flow:
                     v = self._call("__item__", v, ast.Constant(value=i))
                 alts.append(v)
             elif how[0] == "aug":
-                prev = self._expand_name(ast.Name(id=n.id, ctx=ast.Load()), d, depth - 1, st)
+                prev = self._expand_name(copy.deepcopy(n), d, depth - 1, st)
                 alts.append(ast.BinOp(left=prev, op=how[1], right=self.expand(how[2], d, depth - 1, st)))
             elif how[0] == "iter":
                 alts.append(self._iter_value(how[1], how[2], d, depth, st))
@@ -501,6 +549,31 @@ class Flow:
         if len(uniq) == 1:
             return uniq[0]
         return self._call("__phi__", *uniq)
+
+    def used_defs(self, expr, node, _seen=None):
+        """transitive set of (name, defnode) of local definitions the value of expr at node depends on."""
+        seen = _seen if _seen is not None else set()
+        names = []
+        for e in [expr] + list(walk_local(expr)):
+            if isinstance(e, ast.Name) and isinstance(e.ctx, ast.Load):
+                names.append(e.id)
+            elif self.track_self and isinstance(e, ast.Attribute) and isinstance(e.value, ast.Name) and e.value.id == "self":
+                names.append(f"self.{e.attr}")
+        for nm in names:
+            for d in self.defs_at(node, nm):
+                if (nm, d) in seen:
+                    continue
+                how = self.def_how(d, nm)
+                if how[0] in ("param", "other"):
+                    continue
+                seen.add((nm, d))
+                if how[0] in ("assign", "unpack", "iter"):
+                    self.used_defs(how[1], d, seen)
+                elif how[0] == "aug":
+                    self.used_defs(how[2], d, seen)
+                    self.used_defs(ast.Name(id=nm, ctx=ast.Load()) if not nm.startswith("self.") else
+                                   ast.Attribute(value=ast.Name(id="self", ctx=ast.Load()), attr=nm[5:], ctx=ast.Load()), d, seen)
+        return seen
 
     def _iter_value(self, it, path, d, depth, st):
         itx = self.expand(it, d, depth - 1, st)
